@@ -301,6 +301,7 @@ package unmarshal
 //@   requires fresh-state: len(z.key) == 0 && len(z.val) == 0 && isnil(z.traceId) && isnil(z.spanId)
 //@   requires fresh-scalars: z.timestampNs == 0 && z.durationNs == 0 && z.parentId == "" && z.name == "" && z.serviceName == ""
 //@   requires payload-is-this-span: len(z.payload) == len(rawSpan)
+//@   requires payload-is-a-copy: len(rawSpan) > 0 ==> !aliases(z.payload, rawSpan)
 //@   modifies fields(z)
 //@ func (*zipkinDecoderV2).decodeSpan$1 [C05,C06]
 //@   requires spanStateOK(z)
